@@ -84,6 +84,29 @@ def g_def(r: random.Random, kind: t.Optional[str] = None) -> t.Tuple[str, dict]:
     return kind, d
 
 
+def _alpha(i: int) -> str:
+    out = ""
+    i += 1
+    while i:
+        i, k = divmod(i - 1, 26)
+        out = "abcdefghijklmnopqrstuvwxyz"[k] + out
+    return out
+
+
+def many_def(seed: int, kind: str, n: int) -> dict:
+    """A definition with n extensions (some with several values), n names and n members in its first OID list."""
+    r = random.Random(seed * 1000003 + n)
+    _, d = g_def(r, kind)
+    d["names"] = ["n" + _alpha(i) for i in range(n)]
+    d["extensions"] = {("E" + _alpha(i).upper() if i % 3 else "e_" + _alpha(i)): (["v%d" % i] if i % 5 else ["a", "b'c", "d\\e"][: 1 + i % 3]) for i in range(n)}
+    lst = [("a" + _alpha(i)) if i % 2 else "1.2.%d" % i for i in range(n)]
+    if kind == "oc":
+        d["must"] = lst
+    elif kind == "dcr":
+        d["aux"] = lst
+    return d
+
+
 def to_obj(sl, kind: str, d: dict):
     S = sl.schema
     if kind == "oc":
